@@ -198,6 +198,42 @@ def catalogue():
             continue
         seen.add(txt)
         yield _case(prog, [dict(e, uid="u7") for e in envs4])
+    # 4. the same test written more than once (in a nested chain and again in the outer one, twice in one chain ...): every
+    # skeleton with <= 4 return statements, every assignment of the two tests `a == 1` / `b == 1` to its condition slots
+
+    def slots(sk):
+        if sk == "R":
+            return 0
+        _, nb, has_else, combo = sk
+        return nb + sum(slots(c[0]) for c in combo)
+
+    def build2(sk, ctr, it):
+        if sk == "R":
+            i = ctr[0]
+            ctr[0] += 1
+            return R(i)
+        _, nb, has_else, combo = sk
+        conds = [cond(next(it)) for _ in range(nb)]
+        branches = [(conds[j], build2(combo[j][0], ctr, it)) for j in range(nb)]
+        else_ = build2(combo[nb][0], ctr, it) if has_else else None
+        return M.if_(branches, else_)
+
+    envs2 = [{"a": x, "b": y, "uid": "u7"} for x in (0, 1) for y in (0, 1)]
+    for sk, used in skeletons(4, 2, None):
+        if sk == "R":
+            continue
+        k = slots(sk)
+        if k < 2 or k > 4:
+            continue
+        for assign in itertools.product("ab", repeat=k):
+            if len(set(assign)) == k:
+                continue  # no repetition: covered above
+            prog = M.program("e", build2(sk, [0], iter(assign)), splitters=["uid"])
+            txt = M.render(prog)
+            if txt in seen:
+                continue
+            seen.add(txt)
+            yield _case(prog, envs2)
 
 
 def selftest():
